@@ -134,7 +134,10 @@ impl Substance {
                             let res = (&v.output * &self.amount).unwrap();
                             (None, try_div!(res, v.input, context))
                         } else {
-                            (Some(v.input.clone()), v.output.clone())
+                            // A ratio of output to input, and it is
+                            // the output that grows with the amount.
+                            let output = (&v.output * &self.amount).unwrap();
+                            (Some(v.input.clone()), output)
                         };
                         let (input, output) = if output.unit != unit.unit {
                             if let Some(input) = input {
@@ -283,7 +286,10 @@ impl Substance {
                             let res = (&v.output * &self.amount).unwrap();
                             (None, try_div!(res, v.input, context))
                         } else {
-                            (Some(v.input.clone()), v.output.clone())
+                            // A ratio of output to input, and it is
+                            // the output that grows with the amount.
+                            let output = (&v.output * &self.amount).unwrap();
+                            (Some(v.input.clone()), output)
                         };
                         Ok(PropertyReply {
                             name: k.clone(),
